@@ -378,46 +378,58 @@ def process_bls_to_execution_change (_cfg : Config) (s : State) (signed_address_
   let wc : Bytes := ⟨#[ETH1_ADDRESS_WITHDRAWAL_PREFIX]⟩ ++ ⟨Array.replicate 11 0⟩ ++ address_change.to_execution_address
   pure { s with validators := s.validators.set address_change.validator_index { validator with withdrawal_credentials := wc } }
 
-/-- The SSZ list limits of the block body: a body with a longer list is not a `BeaconBlockBody` at all. -/
-def check_limits (cfg : Config) (block : SignedBlock) : SM Unit := do
-  require (block.proposer_slashings.length ≤ cfg.MAX_PROPOSER_SLASHINGS) "limits.proposer_slashings"
-  require (block.attester_slashings.length ≤ cfg.MAX_ATTESTER_SLASHINGS) "limits.attester_slashings"
-  require (block.attestations.length ≤ cfg.MAX_ATTESTATIONS) "limits.attestations"
-  require (block.deposits.length ≤ cfg.MAX_DEPOSITS) "limits.deposits"
-  require (block.voluntary_exits.length ≤ cfg.MAX_VOLUNTARY_EXITS) "limits.voluntary_exits"
-  require (block.bls_to_execution_changes.length ≤ cfg.MAX_BLS_TO_EXECUTION_CHANGES) "limits.bls_changes"
+/-- The SSZ type limits of a block's containers that are per element, or that zrnt enforces when it decodes the
+block rather than in `CheckLimits` (an object violating one of them is not a value of the `SignedBeaconBlock` type: the
+pyspec cannot even construct it). The rule names feed the first-rule statistics. -/
+def check_types (cfg : Config) (block : SignedBlock) : SM Unit := do
   require (block.blob_kzg_commitments.length ≤ cfg.MAX_BLOB_COMMITMENTS_PER_BLOCK) "limits.blob_kzg_commitments"
-  for a in block.attestations do
+  block.attestations.forM fun a => do
     require a.bits_wellformed "ssz.malformed_bitlist"
     require (a.aggregation_bits.length ≤ cfg.MAX_VALIDATORS_PER_COMMITTEE) "limits.aggregation_bits"
   if let some sa := block.sync_aggregate then
     -- Bitvector[SYNC_COMMITTEE_SIZE]: exactly ceil(SIZE/8) bytes, padding bits zero
     require (sa.sync_committee_bits.length = 8 * ((cfg.SYNC_COMMITTEE_SIZE + 7) / 8)) "ssz.sync_bitvector_length"
     require ((sa.sync_committee_bits.drop cfg.SYNC_COMMITTEE_SIZE).all (· = false)) "ssz.sync_bitvector_padding"
-  for a in block.attester_slashings do
+  block.attester_slashings.forM fun a => do
     require (a.attestation_1.attesting_indices.length ≤ cfg.MAX_VALIDATORS_PER_COMMITTEE) "limits.attesting_indices"
     require (a.attestation_2.attesting_indices.length ≤ cfg.MAX_VALIDATORS_PER_COMMITTEE) "limits.attesting_indices"
   if let some p := block.execution_payload then
     require (p.withdrawals.length ≤ cfg.MAX_WITHDRAWALS_PER_PAYLOAD) "limits.withdrawals"
-    require (p.transactions.length ≤ cfg.MAX_TRANSACTIONS_PER_PAYLOAD) "limits.transactions"
     require (p.fields.extra_data.size ≤ cfg.MAX_EXTRA_DATA_BYTES) "limits.extra_data"
-    for t in p.transactions do
-      require (t.size ≤ cfg.MAX_BYTES_PER_TRANSACTION) "limits.transaction_bytes"
+    p.transactions.forM fun t => require (t.size ≤ cfg.MAX_BYTES_PER_TRANSACTION) "limits.transaction_bytes"
 
-/-- `process_operations` [Modified in Capella: bls_to_execution_changes] -/
+/-- The list limits of the body's operation lists (the containers of the state's fork: transactions from bellatrix,
+BLS changes from capella, blob commitments from deneb — where `MAX_BLOBS_PER_BLOCK`, already asserted by
+`process_execution_payload`, is the effective bound). Checked where the operations start, which is where zrnt checks
+them; for the verdict the place makes no difference (a violated limit ⇒ the block is invalid). -/
+def check_counts (cfg : Config) (fork : Fork) (block : SignedBlock) : SM Unit := do
+  require (block.proposer_slashings.length ≤ cfg.MAX_PROPOSER_SLASHINGS) "limits.proposer_slashings"
+  require (block.attester_slashings.length ≤ cfg.MAX_ATTESTER_SLASHINGS) "limits.attester_slashings"
+  require (block.attestations.length ≤ cfg.MAX_ATTESTATIONS) "limits.attestations"
+  require (block.deposits.length ≤ cfg.MAX_DEPOSITS) "limits.deposits"
+  require (block.voluntary_exits.length ≤ cfg.MAX_VOLUNTARY_EXITS) "limits.voluntary_exits"
+  if fork ≥ .bellatrix then
+    require ((block.execution_payload.map (·.transactions.length)).getD 0 ≤ cfg.MAX_TRANSACTIONS_PER_PAYLOAD) "limits.transactions"
+  if fork ≥ .capella then
+    require (block.bls_to_execution_changes.length ≤ cfg.MAX_BLS_TO_EXECUTION_CHANGES) "limits.bls_changes"
+  if fork ≥ .deneb then
+    require (block.blob_kzg_commitments.length ≤ cfg.MAX_BLOBS_PER_BLOCK) "payload.blob_commitments_limit"
+
+/-- `process_operations` [Modified in Capella: bls_to_execution_changes]
+(`for operation in operations: fn(state, operation)` is a left fold) -/
 def process_operations (cfg : Config) (s : State) (block : SignedBlock) : SM State := do
+  check_counts cfg s.fork block
   -- Verify that outstanding deposits are processed up to the maximum number of deposits
   require (s.eth1_data.deposit_count ≥ s.eth1_deposit_index) "operations.deposit_count_underflow"
   require (block.deposits.length = min cfg.MAX_DEPOSITS (s.eth1_data.deposit_count - s.eth1_deposit_index)) "operations.deposit_count"
-  let mut s := s
-  for op in block.proposer_slashings do s ← process_proposer_slashing cfg s op
-  for op in block.attester_slashings do s ← process_attester_slashing cfg s op
-  for op in block.attestations do s ← process_attestation cfg s op
-  for op in block.deposits do s ← process_deposit cfg s op
-  for op in block.voluntary_exits do s ← process_voluntary_exit cfg s op
+  let s ← block.proposer_slashings.foldlM (process_proposer_slashing cfg) s
+  let s ← block.attester_slashings.foldlM (process_attester_slashing cfg) s
+  let s ← block.attestations.foldlM (process_attestation cfg) s
+  let s ← block.deposits.foldlM (process_deposit cfg) s
+  let s ← block.voluntary_exits.foldlM (process_voluntary_exit cfg) s
   if s.fork ≥ .capella then
-    for op in block.bls_to_execution_changes do s ← process_bls_to_execution_change cfg s op  -- [New in Capella]
-  pure s
+    block.bls_to_execution_changes.foldlM (process_bls_to_execution_change cfg) s  -- [New in Capella]
+  else pure s
 
 /-! ## Sync aggregate [New in Altair] -/
 
